@@ -43,7 +43,7 @@ CALL_WATCHDOG = 10.0              # wall seconds per direct parser call
 
 SIZES = {
     'quick': {'parser_batches': 40, 'batch': 500, 'streams': 400, 'accept': 40, 'sem_random': 60},
-    'thorough': {'parser_batches': 4000, 'batch': 500, 'streams': 30000, 'accept': 1500, 'sem_random': 3000},
+    'thorough': {'parser_batches': 8000, 'batch': 500, 'streams': 60000, 'accept': 3000, 'sem_random': 6000},
 }
 MIN_OBS = {
     'quick': {'parser_calls': 20000, 'streams': 380, 'frames_sent': 7000, 'hostile_frames': 2500,
